@@ -11,6 +11,41 @@ mod pkg;
 mod resolve;
 mod sep;
 
+
+/// Run one case; with "timeout_ms" in the input the case runs on its own thread (same stack size as the command line).
+/// A case that does not answer in time cannot be stopped: its result is {"timeout":true}, every remaining case of this
+/// process is answered {"skipped":true} and the process exits (the driver re-submits the skipped cases to a new process),
+/// so that a runaway case cannot eat the machine.
+fn guarded(
+    v: &serde_json::Value,
+    f: fn(&serde_json::Value) -> serde_json::Value,
+    rest: &mut dyn Iterator<Item = std::io::Result<String>>,
+    out: &mut dyn Write,
+) {
+    let r = match v.get("timeout_ms").and_then(|x| x.as_u64()) {
+        None => f(v),
+        Some(ms) => {
+            let (tx, rx) = std::sync::mpsc::channel();
+            let v2 = v.clone();
+            let _ = std::thread::Builder::new().stack_size(256 << 20).spawn(move || {
+                let _ = tx.send(f(&v2));
+            });
+            match rx.recv_timeout(std::time::Duration::from_millis(ms)) {
+                Ok(r) => r,
+                Err(_) => {
+                    writeln!(out, "{}", serde_json::json!({"ok": false, "timeout": true})).unwrap();
+                    for _ in rest {
+                        writeln!(out, "{}", serde_json::json!({"skipped": true})).unwrap();
+                    }
+                    out.flush().unwrap();
+                    std::process::exit(0);
+                }
+            }
+        }
+    };
+    writeln!(out, "{}", r).unwrap();
+}
+
 fn main() {
     let args: Vec<String> = std::env::args().collect();
     if args.len() < 2 {
@@ -39,25 +74,28 @@ fn main() {
             }
         }
         "lexparse" => {
-            for line in stdin.lock().lines() {
+            let mut lines = stdin.lock().lines();
+            while let Some(line) = lines.next() {
                 let line = line.unwrap();
                 let v: serde_json::Value = serde_json::from_str(&line).unwrap();
-                writeln!(out, "{}", lexparse::lexparse_case(&v)).unwrap();
+                guarded(&v, lexparse::lexparse_case, &mut lines, &mut out);
             }
         }
         "query" => {
-            for line in stdin.lock().lines() {
+            let mut lines = stdin.lock().lines();
+            while let Some(line) = lines.next() {
                 let line = line.unwrap();
                 let v: serde_json::Value = serde_json::from_str(&line).unwrap();
-                writeln!(out, "{}", query::query_case(&v)).unwrap();
+                guarded(&v, query::query_case, &mut lines, &mut out);
                 out.flush().unwrap();
             }
         }
         "parse-ast" => {
-            for line in stdin.lock().lines() {
+            let mut lines = stdin.lock().lines();
+            while let Some(line) = lines.next() {
                 let line = line.unwrap();
                 let v: serde_json::Value = serde_json::from_str(&line).unwrap();
-                writeln!(out, "{}", lexparse::parse_ast_case(&v)).unwrap();
+                guarded(&v, lexparse::parse_ast_case, &mut lines, &mut out);
             }
         }
         "sep" => {
@@ -68,32 +106,19 @@ fn main() {
             }
         }
         "resolve" => {
-            for line in stdin.lock().lines() {
+            let mut lines = stdin.lock().lines();
+            while let Some(line) = lines.next() {
                 let line = line.unwrap();
                 let v: serde_json::Value = serde_json::from_str(&line).unwrap();
-                writeln!(out, "{}", resolve::resolve_case(&v)).unwrap();
+                guarded(&v, resolve::resolve_case, &mut lines, &mut out);
             }
         }
         "compile" => {
-            for line in stdin.lock().lines() {
+            let mut lines = stdin.lock().lines();
+            while let Some(line) = lines.next() {
                 let line = line.unwrap();
                 let v: serde_json::Value = serde_json::from_str(&line).unwrap();
-                let r = match v.get("timeout_ms").and_then(|x| x.as_u64()) {
-                    None => compile::compile_case(&v),
-                    Some(ms) => {
-                        // watchdog: run the case on its own thread (same stack size as the command line); a hang leaks the thread
-                        let (tx, rx) = std::sync::mpsc::channel();
-                        let v2 = v.clone();
-                        let _ = std::thread::Builder::new().stack_size(256 << 20).spawn(move || {
-                            let _ = tx.send(compile::compile_case(&v2));
-                        });
-                        match rx.recv_timeout(std::time::Duration::from_millis(ms)) {
-                            Ok(r) => r,
-                            Err(_) => serde_json::json!({"ok": false, "timeout": true}),
-                        }
-                    }
-                };
-                writeln!(out, "{}", r).unwrap();
+                guarded(&v, compile::compile_case, &mut lines, &mut out);
                 out.flush().unwrap();
             }
         }
